@@ -19,6 +19,7 @@ CLAIMED = {
  "C12": ("DESIGN §6 C12", "one plugin RunningStep driven directly through the provider API by 1-3 environment clients (provide deploy/enabling/starting/cancelled input in any order, duplicates, Close, ForceClose, State, CurrentStage at scheduler-chosen moments and overlaps) while the world fails or delays the deployment, returns / crashes / hangs / panics, mismatches the schema or kills the connection; oracle: the notification history is accepted by a lifecycle automaton stated from the property (continuity, each stage finished at most once and never also impossible, declared outputs only, impossible stages never entered, exactly one completion, State()=finished afterwards), no call hangs, no notification begins after the first Close/ForceClose returned, and the provide/close call history is linearizable (porcupine) against 'first provide per stage accepted, later ones refused'"),
  "C10": ("DESIGN §6 C10", "generated programs (plain, tagged, loops, stop conditions) are prepared under seeded map-iteration orders (the only nondeterminism Prepare has); structural oracle (no schedule in it, labelled as such): for every consumer node the dependencies read from ExecutableWorkflow.DAG(), followed through dependency-group nodes and classified (required / one-of / wait-optional / soft-optional), equal the set derived from the IR, lifecycle edges equal the providers' NextStages, nothing else; single-point corruptions (dangling step/stage/output/input field, wrong literal type, missing required input, unknown key, self-cycle, back-edge) are rejected with zero run deployments and every schema probe closed. The behavioural half (starved producers, unrelated never-ending step) is exercised by C02 and C01"),
  "C16": ("DESIGN §6 C16", "each generated program is prepared 3-6 times in one simulated run under different seeded map-iteration orders (which the native runtime cannot replay), with textual permutations of steps / outputs / input fields and a consistent renaming of all steps; oracle: same verdict, and after undoing the renaming and canonicalising generated ids the same dependency graph (nodes, classified edges), output schemas (self-serialised) and namespaces"),
+ "C20": ("DESIGN §6 C20", "generated workflow trees (loops nested up to depth 3, sub-workflows in sub-directories, shared sub-workflow files, outputs named success / error / fallback / other, explicit output schemas with either error flag) are written to a temporary directory and run through engine.New -> RunWorkflow and Parse+Run with the deployer registry replaced by the simulated one, from absolute and relative context directories and different working directories, under seeded file-map orders and schedules, with missing / unreadable sub-workflow files; oracle: same id and data as Prepare+Execute of the same text and as the reference model, error flag <=> declared (or, if inferred, named) error output, file faults give an error, never a panic or hang"),
 }
 NA = {
  "C11": "pure totality claim over byte strings: no schedule, clock, fault or interleaving in it (input fuzzing is a different technique); see DESIGN §7",
